@@ -1,6 +1,6 @@
 # -*- coding: utf-8 -*-
 """C08 SMARTS primitives and query atoms match exactly what is documented -- predicate, plumbing and rejection clauses."""
-from ..r_query import rule_eq_ladders, rule_primitive_plumbing, rule_constructor_kwargs
+from ..r_query import rule_eq_ladders, rule_primitive_plumbing, rule_constructor_kwargs, rule_constraint_normalisers
 from ..r_rings import rule_ring_marks
 from ..r_readers import rule_raise_family, rule_implicit_raises, rule_tokenizer_fsm, DAYLIGHT
 
@@ -15,6 +15,7 @@ def run(ck, repo):
     rule_eq_ladders(ck, repo)
     rule_primitive_plumbing(ck, repo)
     rule_constructor_kwargs(ck, repo)
+    rule_constraint_normalisers(ck, repo, 'C08.D2-constraint-normalisers')
     # the labels the predicates read: every label assigned for every atom, neighbour classes exclusive
     rule_ring_marks(ck, repo, 'C08.D4-atom-labels')
     rule_raise_family(ck, repo, DAYLIGHT, 'C08.D3-raise-family', ValueError,
